@@ -131,6 +131,21 @@ Theorem C01_hup_refuses_unapplied_conf_change : forall r t m off i e,
 Proof. exact hup_refuses_unapplied_conf_change. Qed.
 Print Assumptions C01_hup_refuses_unapplied_conf_change.
 
+(* (13) StepNode's unknown-sender filter (node.handleReceivedMessage + util.IsResponseMsg, both transcribed and diffed:
+        the predicate for every message type on every run): a vote answer of either kind whose sender is neither voter
+        nor learner of the local configuration — a replica removed between the request and its answer — is dropped
+        before Step; votes map, role and term are unchanged. raft.poll alone would count any id. *)
+Theorem C01_vote_of_non_member_not_counted : forall r m,
+  get_progress r (m_from m) = None -> (m_type m = msg_vote_resp \/ m_type m = msg_pre_vote_resp) ->
+  handle_received r m = Ok r.
+Proof. exact vote_of_non_member_not_counted. Qed.
+Print Assumptions C01_vote_of_non_member_not_counted.
+
+Theorem C01_response_types : forall t, is_response_msg t = true <->
+  (t = msg_app_resp \/ t = msg_vote_resp \/ t = msg_heartbeat_resp \/ t = msg_unreachable \/ t = msg_pre_vote_resp).
+Proof. exact is_response_msg_spec. Qed.
+Print Assumptions C01_response_types.
+
 
 (* ====================================================================================== *)
 (* The property over all schedules, on the abstract protocol of coq/RaftAbs (Model.v: per-node term /
